@@ -1,6 +1,6 @@
 """C13 — the server never modifies the files it serves."""
 from .servebase import *
-from .c04 import P as C04
+from .c04 import P as C04, zero_write
 
 
 class P(ServeProp):
@@ -23,8 +23,8 @@ class P(ServeProp):
         c4 = C04()
         base = c4.gen(rnd, tier, n // 2)
         for l in base:
-            if "rerr" in l or "werr" in l or "ferr" in l or "deep=1" in l:
-                continue
+            if "rerr" in l or "werr" in l or "ferr" in l or "deep=1" in l or zero_write(gs.parse_case(l)["opts"]):
+                continue          # transport faults are C04's: the response is cut short there, the model does not express it
             out.append(self._with_manifest(l))
         # reads of the built-in pages and of anything else, from trees that do or do not hold a file of that name: serving a default must not create it
         for _ in range(n // 6):
@@ -49,7 +49,7 @@ class P(ServeProp):
             hs = [rnd.choice(["Content-Type: multipart/form-data; boundary=" + bd, "Content-Type: application/x-www-form-urlencoded", "Content-Type: application/octet-stream"]),
                   "Content-Length: %d" % len(body)]
             if rnd.random() < 0.3: hs.append("Content-Range: bytes 0-3/10")
-            if rnd.random() < 0.2: hs.append("Range: bytes=0-1")
+            if rnd.random() < 0.2: hs.append("Range: " + rnd.choice(["bytes=0-1", "bytes=0-3, 5000-6000", "bytes=0-0,2-2", "bytes=0-0,a-b", "bytes=-1,99999-"]))
             out.append(self._with_manifest(gs.serve_case(rnd, kind="serve" if rnd.random() < 0.8 else "serveL", tree=t, target=tg, method=meth, headers=hs, body=body, meta="write=1")))
         return out
 
